@@ -7,6 +7,9 @@ Eq(name, got, want) == IF got = want THEN {} ELSE {name}
 FailsAddr(o) ==
   LET cs == ViewCells(o.v, o.off) IN
      Eq("read:" \o o.v.k, o.read, AddrRead(o.buf, cs)) \cup Eq("write:" \o o.v.k, o.out, AddrWrite(o.buf, cs))
+     \* the same view taken on a const host reads the same cells; the accessor taking an array of indices agrees with the variadic one
+     \cup (IF "readc" \in DOMAIN o THEN Eq("read-through-const:" \o o.v.k, o.readc, AddrRead(o.buf, cs)) ELSE {})
+     \cup (IF "arrsame" \in DOMAIN o /\ o.arrsame # 1 THEN {"array-index-accessor:" \o o.v.k} ELSE {})
      \cup (IF o.v.k \in {"vecview", "matview"} THEN Eq("minimal_size:" \o o.v.k, o.minsize, MinimalSize(cs, o.off)) ELSE {})
 Class(o) == IF \E s \in Leaves(o.tree) \cap {1, 2} : Overlaps(o, s) /\ ~ExactAlias(o, s) THEN "shifted_alias"
             ELSE IF \E s \in Leaves(o.tree) \cap {1, 2} : ExactAlias(o, s) THEN "exact_alias"
